@@ -29,6 +29,10 @@ func init() {
 			Expect: "eff.getters-pure / nasType.(*TAIList).GetIei", Why: "read of a shared message writes it"},
 		Mutant{Name: "c19-goroutine", Prop: "C19", File: "security/snow3g/snow3g.go", Old: "func mulx(V, c byte) byte {\n", New: "func warm() { go func() { _ = sr[0] }() }\n\nfunc mulx(V, c byte) byte {\n",
 			Expect: "lang.no-conc", Why: "library starts a goroutine"},
+		Mutant{Name: "c19-global-via-method", Prop: "C19", File: "security/snow3g/snow3g.go", Old: "func mulx(V, c byte) byte {\n", New: "type memo struct{ k, v byte }\n\nvar lastMulx memo\n\nfunc (m *memo) set(k, v byte) { m.k, m.v = k, v }\n\nfunc mulx(V, c byte) byte {\n\tlastMulx.set(V, c)\n",
+			Expect: "glob.init-only", Why: "package-level memo written through a method called on it (no direct store in the caller)"},
+		Mutant{Name: "c19-convert-writes-arg", Prop: "C19", File: "nasConvert/UESecurityCapability.go", Old: "\tnea[0] = buf[0] << 1\n", New: "\tbuf[0] <<= 1\n\tnea[0] = buf[0]\n\tbuf[0] >>= 1\n",
+			Expect: "eff.convert-readonly / nasConvert.UESecurityCapabilityToByteArray", Why: "helper scribbles on (and restores) the contents it is reading: racy for concurrent readers"},
 		Mutant{Name: "c19-keep-local-table-copy", Prop: "C19", File: "security/snow3g/snow3g.go", Old: "func mulx(V, c byte) byte {\n", New: "func sqCopy() [256]byte { t := sq; t[0] = 0; return t }\n\nfunc mulx(V, c byte) byte {\n", Keep: true,
 			Why: "writes a local copy of the table, not the table"},
 	)
